@@ -40,7 +40,8 @@ def run(model, res, tier):
     for rid, txt in (('R1', 'an error item becomes the result'), ('R2', 'regrouping invariance: same leaves for every argument shape'),
                      ('R3', 'criteria predicate roles'), ('R4', 'extremum accumulators are not seeded with a winning constant'),
                      ('R5', 'criteria and values are index-aligned'), ('R6', 'empty selection'), ('R7', 'delegation / closed forms'),
-                     ('R8', 'no cache or shared state')):
+                     ('R8', 'no cache or shared state'),
+                     ('R9', 'the items are the values the references were given: a cell holding 0 is the item 0, not a blank (shared with C10.R5)')):
         res.rule(rid, txt)
     res.trusted += ['hxsa abstract interpreter (eager generators with a deferred raise)', 'hxsa polynomial normal form', 'python statistics function names']
     em, singles = error_singletons(model)
@@ -51,11 +52,16 @@ def run(model, res, tier):
     H.safely(res, 'R4', 'r4_r5', _r4_r5, model, res)
     H.safely(res, 'R6', 'empty selection', _r6, model, res, E)
     H.safely(res, 'R7', 'closed forms', _r7, model, res)
+    from . import c10
+    H.borrow(res, 'R9', 'supplied values', lambda tmp: c10.supplied_values_rules(model, tmp, c))
     keys = []
     for n in ERROR_PROPAGATING + list(DELEGATION) + ['COUNT', 'SUMIF', 'COUNTIF', 'AVERAGEIF', 'SUMIFS', 'AVERAGEIFS', 'MAXIFS', 'LARGE', 'SLOPE', 'AVEDEV']:
         m, f = model.registered(n)
         keys.append((m.name, m.qualname_of(f)))
     region = c.cg.reachable(keys)
+    res.rule('RX', 'where a function answers "an error rather than a value" by raising, the catch-all of parse() turns every exception class into #ERROR! (shared with C01.R1)')
+    from . import c01 as _c01
+    H.borrow(res, 'RX', 'catch-all of parse()', lambda tmp: _c01.catch_all_rule(model, tmp, c))
     purity.check_region(res, c, 'R8', 'R8', region, 'an aggregate')
     purity.check_memo(res, c, 'R8', region, 'an aggregate')
 
